@@ -35,7 +35,7 @@ func c03run(c GCase, memoExpr map[int]bool, memoNT []bool, plain bool) c03outcom
 	out := c03outcome{counts: map[string]int{}}
 	g := *c.G
 	g.Memo = memoNT
-	h := &gram.Hooks{NoMemo: plain, ShareLeaves: true, UserLeaves: run.Hash(c.G.String())%4 == 1, KeywordLeaves: run.Hash(c.G.String())%4 == 3}
+	h := &gram.Hooks{Budget: gd.LeafTick, NoMemo: plain, ShareLeaves: true, UserLeaves: run.Hash(c.G.String())%4 == 1, KeywordLeaves: run.Hash(c.G.String())%4 == 3}
 	if run.Hash(c.G.String())%3 == 0 {
 		// a third of the grammars name every Any/Choice (Name() -> parser.ReturnError): a named alternative that fails
 		// returns 'was expecting <name>' - in the plain and in the memoized build alike
